@@ -50,6 +50,26 @@ class Effects:
             return self._own[key]
         out = []
         rv = self.cg.receiver_var(f)
+        # locals that are plain aliases of a receiver field (x = self.full.spy): effects on x are effects on that field
+        alias = {}
+        multi = set()
+        for n in walk_shallow(f.node):
+            if not isinstance(n, ast.Assign) or len(n.targets) != 1:
+                continue
+            tg, vv = n.targets[0], n.value
+            pairs = list(zip(tg.elts, vv.elts)) if isinstance(tg, ast.Tuple) and isinstance(vv, ast.Tuple) and len(tg.elts) == len(vv.elts) else [(tg, vv)]
+            for t_, v_ in pairs:
+                if not isinstance(t_, ast.Name):
+                    continue
+                nm = t_.id
+                cr = chain_root(v_) if isinstance(v_, (ast.Attribute, ast.Subscript)) else None
+                if cr and rv and cr[0] == rv and cr[1] and nm not in alias and nm not in multi:
+                    alias[nm] = cr[1]
+                else:
+                    multi.add(nm)
+                    alias.pop(nm, None)
+        self._alias = getattr(self, '_alias', {})
+        self._alias[f] = alias
         for n in walk_shallow(f.node):
             if isinstance(n, (ast.Assign, ast.AugAssign, ast.AnnAssign, ast.Delete)):
                 if isinstance(n, ast.Assign):
@@ -67,6 +87,8 @@ class Effects:
                 for t in flat:
                     if isinstance(t, (ast.Attribute, ast.Subscript)):
                         cr = chain_root(t)
+                        if cr and cr[0] in alias:
+                            cr = (rv, alias[cr[0]] + (('.' + cr[1]) if cr[1] else ''))
                         if cr and cr[1] != '' or (cr and isinstance(t, ast.Subscript)):
                             out.append((cr[0], cr[1], n, 'store'))
             elif isinstance(n, ast.Call) and isinstance(n.func, ast.Attribute) and n.func.attr in MUTATORS:
@@ -75,6 +97,8 @@ class Effects:
                 cr = chain_root(n.func.value)
                 if cr is None:
                     continue
+                if cr[0] in alias:
+                    cr = (rv, alias[cr[0]] + (('.' + cr[1]) if cr[1] else ''))
                 meth = n.func.attr
                 if meth in AMBIGUOUS:
                     tys = None
